@@ -3,6 +3,7 @@ from build import AnalysisBroken
 import paths as P
 from paths import ptr_key, is_const
 import ownership as O
+import decoder_rules as DR
 import tables
 import rules
 
@@ -129,6 +130,9 @@ def run(ctx, chk):
         chk.extra["deep_paths"] = sum(len(deep.get(f.name)) for f in prog.lib_funcs())
 
     check_blocks(chk, "C06.blocks", prog, cache, floor=26)
+    chk.rule("C06.no-stale-block", "a refused (re)allocation leaves no field pointing at a freed block: after freeing a block read from a "
+                                   "heap field the field is overwritten or its owner freed on the same path (reallocation wrappers inlined)")
+    check_dangling(chk, "C06.no-stale-block", prog, eff, cache)
 
     check_atomic(chk, "C06.atomic", prog, cache, floor=12)
 
@@ -225,6 +229,60 @@ def check_atomic(chk, rule, prog, cache, floor=None):
         chk.floor(rule, "failure paths of container operations", natom, floor)
     return natom
 
+
+
+def check_dangling(chk, rule, prog, eff, cache, floor=4):
+    """No field of a live object is left pointing at a block that has been handed to the installed free: on every path
+    of every library function (static helpers and the two reallocation wrappers inlined), a block that was read out of
+    a heap field and then freed has that field overwritten, or the object holding the field freed, later on the path.
+    Otherwise the block would be released (or resized) a second time through the stale field."""
+    wrappers = {n for n in ("_cbor_realloc_multiple", "_cbor_alloc_multiple") if n in prog.funcs}
+    n = 0
+    for f in prog.lib_funcs():
+        if f.name in wrappers:
+            continue
+        for k, pa in enumerate(cache.get(f.name, inline=O.static_callees(prog, eff, f.name) | wrappers)):
+            evs = pa.events
+            for i, e in enumerate(evs):
+                if e.kind == "call" and e.ckind == "alloc" and e.callee == "_cbor_realloc" and pa.st.known_nonnull(e.res):
+                    # a successful resize: the old block is gone, the field it was read from must receive the new one
+                    p = e.args[0]
+                    while isinstance(p, tuple) and p[0] == "cast":
+                        p = p[3]
+                    if isinstance(p, tuple) and p[0] == "ld" and not (isinstance(ptr_key(p[1])[0], tuple) and ptr_key(p[1])[0][0] == "alloca"):
+                        n += 1
+                        tgt = (ptr_key(p[1])[0], ptr_key(p[1])[1] + p[2])
+                        ok = any(x.kind == "store" and ptr_key(x.args[0]) == tgt and x.args[1] == e.res for x in evs[i + 1:])
+                        chk.ob(rule, "%s path %d: a resized block replaces the old one in the field it came from" % (f.name, k), ok, e.ins.loc(),
+                               fn=f.name, key="%s:resized:%s:%d" % (f.name, e.fn.name, e.ins.id),
+                               detail="" if ok else "the block read from %s was resized successfully but the field still holds the old address"
+                               % DR.fmt_term(("p", p[1], p[2]) if p[2] else p[1]), path=pa.block_lines() if not ok else None)
+                    continue
+                if not (e.kind == "call" and e.ckind == "alloc" and e.callee == "_cbor_free"):
+                    continue
+                p = e.args[0]
+                while isinstance(p, tuple) and p[0] == "cast":
+                    p = p[3]
+                if not (isinstance(p, tuple) and p[0] == "ld"):
+                    continue
+                X, off = p[1], p[2]
+                bx = ptr_key(X)[0] if isinstance(X, tuple) else X
+                if isinstance(bx, tuple) and bx[0] == "alloca":
+                    continue     # a local variable holding the pointer, not a field of a heap object
+                n += 1
+                # where was p loaded?
+                li = next((j for j, x in enumerate(evs) if x.kind == "load" and x.res == p), 0)
+                later = evs[li:]
+                cleared = any(x.kind == "store" and ptr_key(x.args[0]) == (ptr_key(X)[0], ptr_key(X)[1] + off) for x in later)
+                owner_freed = any(x.kind == "call" and x.callee == "_cbor_free" and x is not e and
+                                  isinstance(x.args[0], tuple) and (x.args[0] == X or ptr_key(x.args[0])[0] == ptr_key(X)[0]) for x in evs[i + 1:])
+                ok = cleared or owner_freed
+                chk.ob(rule, "%s path %d: a freed block is not left behind in a live field" % (f.name, k), ok, e.ins.loc(), fn=f.name,
+                       key="%s:dangling:%s:%d" % (f.name, e.fn.name, e.ins.id),
+                       detail="" if ok else "the block read from %s is freed, but that field is neither overwritten nor its owner freed on this "
+                                            "path: the stale pointer will be freed or resized again" % DR.fmt_term(("p", X, off) if off else X),
+                       path=pa.block_lines() if not ok else None)
+    chk.floor(rule, "frees of blocks read from heap fields", n, floor)
 
 
 def check_blocks(chk, rule, prog, cache, floor=None):
